@@ -581,3 +581,11 @@ def replay(ctx, hdr, body):
     text.append("recorded: %s" % hdr.get("what", ""))
     text.append("replay verdict: %s" % ("property holds on this input" if ok else "property violated on this input"))
     return ok, "\n".join(text)
+
+
+# ---- additional parts (whole-library composite models); missing modules are skipped
+from props import _extend
+_extend.extend(globals(), [
+    "C10_lib1",
+    "C10_lib2",
+])
